@@ -18,6 +18,7 @@ import (
 	"bytes"
 	"fmt"
 	"go/format"
+	"go/token"
 	"go/types"
 	"strconv"
 )
@@ -163,19 +164,21 @@ func (tm *typesMap) newName(typs []types.Type) string {
 			}
 		}
 	}
+	// A prefix can be a Go keyword (-pluginprefix=fmap=map), which is fine for mapStrings, but not as a name on its own.
+	taken := func(funcName string) bool {
+		_, exists := tm.funcToTyps[funcName]
+		_, isreserved := tm.reserved[funcName]
+		return exists || isreserved || token.IsKeyword(funcName)
+	}
 	i := 0
 	funcName := tm.prefix
-	_, exists := tm.funcToTyps[funcName]
-	_, isreserved := tm.reserved[funcName]
-	for exists || isreserved {
+	for taken(funcName) {
 		if i > len(name) {
 			funcName = tm.prefix + "_" + name + strconv.Itoa(i)
 		} else {
 			funcName = tm.prefix + "_" + name[:i]
 		}
 		i++
-		_, exists = tm.funcToTyps[funcName]
-		_, isreserved = tm.reserved[funcName]
 	}
 	return funcName
 }
